@@ -20,7 +20,7 @@ type H struct {
 	Ops    []xp.LogOp `json:"ops"`
 }
 
-const rule = "rapid state-machine sequences on the real RocksDB-backed raft log store (opened through the consensus hook, whole sequence run in an executor child): StoreLog, StoreLogs (0-30 entries, unordered indexes, overwrites), GetLog, DeleteRange(min,max) (empty, covering, boundary, inverted, max=2^64-1), FirstIndex, LastIndex, Set/Get, SetUint64/GetUint64, close+reopen; indexes anywhere in uint64 biased to small, 2^32+-1, 2^63+-1, 2^64-1; every raft.LogType; data / extensions nil, empty or binary up to 64 KB. Oracle: equality with a map model incl. every field of every entry, first/last = min/max key or 0, not-found for absent keys, all of it again after reopen and a clean process end. An inverted range (min>max) is an empty range. Non-trivial: a DeleteRange or a reopen is followed by reads. distinct = FNV-64 of the sequence."
+const rule = "rapid state-machine sequences on the real RocksDB-backed raft log store (opened through the consensus hook, whole sequence run in an executor child): StoreLog, StoreLogs (0-30 entries, unordered indexes, overwrites), GetLog, DeleteRange(min,max) (empty, covering, boundary, inverted, max=2^64-1), FirstIndex, LastIndex, Set/Get, SetUint64/GetUint64, close+reopen (also with the sync option switched, as an operator may between two lives of a node); indexes anywhere in uint64 biased to small, 2^32+-1, 2^63+-1, 2^64-1; every raft.LogType; data / extensions nil, empty or binary up to 64 KB. Oracle: equality with a map model incl. every field of every entry, first/last = min/max key or 0, not-found for absent keys, all of it again after reopen and a clean process end. An inverted range (min>max) is an empty range. Non-trivial: a DeleteRange or a reopen is followed by reads. distinct = FNV-64 of the sequence."
 
 func idxGen() *rapid.Generator[uint64] {
 	return rapid.OneOf(
@@ -95,7 +95,8 @@ func TestLogStore(t *testing.T) {
 			return idxGen().Draw(rt, label)
 		}
 		for i, n := 0, rapid.IntRange(1, 50).Draw(rt, "nops"); i < n; i++ {
-			switch rapid.SampledFrom([]string{"store", "stores", "stores", "get", "get", "delrange", "first", "last", "set", "get-k", "setu", "getu", "reopen"}).Draw(rt, "op") {
+			op := rapid.SampledFrom([]string{"store", "stores", "stores", "get", "get", "delrange", "first", "last", "set", "get-k", "setu", "getu", "reopen", "reopen-toggle"}).Draw(rt, "op")
+			switch op {
 			case "store":
 				e := entryGen(rt, known)
 				known = append(known, e.Index)
@@ -132,8 +133,8 @@ func TestLogStore(t *testing.T) {
 				h.Ops = append(h.Ops, xp.LogOp{Op: "setu", K: key('u'), U: idxGen().Draw(rt, "uval")})
 			case "getu":
 				h.Ops = append(h.Ops, xp.LogOp{Op: "getu", K: key('u')})
-			case "reopen":
-				h.Ops = append(h.Ops, xp.LogOp{Op: "reopen"})
+			case "reopen", "reopen-toggle":
+				h.Ops = append(h.Ops, xp.LogOp{Op: op})
 			}
 		}
 		return h
@@ -269,7 +270,7 @@ func exec(h H, rec *pbt.Rec) error {
 			if got.Err != "" || ok == got.NotFound || ok && got.U != want {
 				return fmt.Errorf("%s(%x): got %d notfound=%v err=%q, model %d present=%v", tag, op.K, got.U, got.NotFound, got.Err, want, ok)
 			}
-		case "reopen":
+		case "reopen", "reopen-toggle":
 			if got.Err != "" {
 				return fmt.Errorf("%s: %s", tag, got.Err)
 			}
